@@ -73,7 +73,7 @@ class Check(PropertyCheck):
     props_module = 'Props.C01'
     models = {'proc': 'XProc.v', 'proc_ir': 'XProcIR.v'}
     needs_gen = True
-    gen_modules = ['gen_skeleton', 'gen_c01_code']
+    gen_modules = ['gen_skeleton', 'gen_c01_code', 'gen_c01_exit']
     rule = ('(A) import graphs: every project of <= N flat modules x <= K imports each (targets: any module incl. itself, or an '
             'unknown name) x parse flag per module, plus random projects with packages, cycles and all processing orders '
             'sampled; non-trivial = at least one import edge AND (a cycle or an unparsable module); '
@@ -85,6 +85,8 @@ class Check(PropertyCheck):
         'Gen/ProcCode.v in the statement language of Model/ProcIR.v, whose interpreter is the stated meaning of the Python '
         'statements it covers; primitives: parseString/parseFile, processModuleAST = the listed getProcessedModule calls, '
         '_introspectThing/msg/progress/postProcess without effect on the modelled state)',
+        'translator harness/gen/gen_c01_exit.py (fail-closed; the exit-status region of driver.main -> Gen/ExitCode.v, language and '
+        'primitives in Model/ExitIR.v; C01_code_exit_status_is_model)',
         'translator harness/gen/gen_skeleton.py (fail-closed; prints the try/except skeleton and the live exception class table)',
         'oracle contract `allowed_table` in Gen/Skeleton.v: what each designated risky call may raise (stated, not proved)',
         'extraction ExtrOcamlBasic only + coq/ocaml/driver.ml',
